@@ -133,7 +133,9 @@ func meteringEdges(w *core.World) map[string][]string {
 func c30(r *core.Run) {
 	r.Explanation = "Decided clauses: (R1) metering census: every (function → computation kind / memory-usage kind) metering edge recorded from the reviewed tree still exists (a metering call that is removed, or whose kind disappears from a function, is reported); " +
 		"(R2) interpreter: while and for-in loops call reportLoopIteration inside the loop body on every iteration path; invocation reports the call-depth increment before the call, every return after it passes the decrement, and the decrement (or its defer) is never reached without the increment; " +
-		"(R3) VM/compiler: every loop construct emits InstructionLoop, statements emit InstructionStatement, opLoop/opStatement/invoke meter, and pushCallFrame tests StackDepthLimit before pushing; no peephole pattern contains a metering or jump opcode."
+		"(R3) VM/compiler: every loop construct emits InstructionLoop, statements emit InstructionStatement, opLoop/opStatement/invoke meter, and pushCallFrame tests StackDepthLimit before pushing; no peephole pattern contains a metering or jump opcode; " +
+		"(R5) every gauge forwarder (MeterComputation/MeterMemory wrappers, UseComputation/UseMemory) reaches the delegating call on every path, except after a nil-delegate or zero-usage test; " +
+		"(R6) the call-depth limit of both engines derives from runtime.Config.StackDepthLimit."
 	r.NotDecided = "termination; that the metered amounts are adequate beyond R4 (R4: a per-append memory usage of a string builder is computed from the length of the value appended)."
 	w := r.W
 	named := func(n string) func(*types.Func) bool {
